@@ -238,6 +238,10 @@ func (e *Env) eval(x *Expr) Val {
 			e.fail("bad number %s", x.Name)
 		}
 		return Val{bigLit(n), SInt, nil}
+	case "fnum":
+		var fl float64
+		fmt.Sscanf(x.Name, "%g", &fl)
+		return Val{fpLit(fl), SFP, types.Typ[types.Float64]}
 	case "pow":
 		a, b := e.eval(x.Args[0]), e.eval(x.Args[1])
 		ai, ok1 := new(big.Int).SetString(a.t, 10)
